@@ -26,6 +26,11 @@ fn main() {
         }
     }
     install_panic_hook();
+    if cmd == "osrng-fork" {
+        // before any thread is started: fork() in a multi-threaded process is not safe
+        print!("{}", props::c12::os_rng_fork_probe(args.get(2).and_then(|s| s.parse().ok()).unwrap_or(3)));
+        return;
+    }
     fips204_verif::engine::start_watchdog();
     let t0 = Instant::now();
     if cmd == "featref" {
@@ -70,6 +75,28 @@ fn main() {
                         m2.push(0);
                         let v3 = refmodel::verify(&p, &pk, &m2, &sig, ctx, mode).accepted();
                         d.update([u8::from(v1), u8::from(v2), u8::from(v3)]);
+                        for k in 0..4u8 {
+                            // same malformations of the hint section as featprobe's `hint_mutant`
+                            let mut s = sig.clone();
+                            let hoff = s.len() - (p.omega + p.k);
+                            let total = s[hoff + p.omega + p.k - 1] as usize;
+                            let (mut start, mut found) = (0usize, None);
+                            for pi in 0..p.k {
+                                let end = s[hoff + p.omega + pi] as usize;
+                                if end >= start + 2 && found.is_none() {
+                                    found = Some(start);
+                                }
+                                start = end;
+                            }
+                            match (k, found) {
+                                (0, Some(a)) => s[hoff + a + 1] = s[hoff + a],
+                                (1, Some(a)) => s.swap(hoff + a, hoff + a + 1),
+                                (2, _) if total < p.omega => s[hoff + total] = 1,
+                                (3, _) if total < p.omega => s[hoff + p.omega + p.k - 1] += 1,
+                                _ => {}
+                            }
+                            d.update([u8::from(refmodel::verify(&p, &pk, m, &s, ctx, mode).accepted())]);
+                        }
                     }
                     d.finalize().into()
                 })
@@ -266,6 +293,38 @@ fn main() {
         }
         println!("{}", serde_json::to_string_pretty(&found).expect("json"));
         eprintln!("searched {n} signatures for set {} in {:.0}s", p.id, t0.elapsed().as_secs_f64());
+        return;
+    }
+    if cmd == "itersearch" {
+        // vcheck itersearch <set> <millions>: genuine signatures accepted in a LATE rejection-loop iteration
+        // (reference signer only; the tuples extend corpus/sig_extremes)
+        use rayon::prelude::*;
+        let p = refmodel::params(args[2].parse().expect("set"));
+        let n: u64 = (args[3].parse::<f64>().expect("millions") * 1e6) as u64;
+        let sks: Vec<Vec<u8>> = (0..4u64).map(|k| refmodel::keygen_internal(&p, &fips204_verif::gen::Seed32::Uniform(k).bytes()).1).collect();
+        let base: u64 = 1 << 40; // index space disjoint from sigsearch
+        let mut best: Vec<(u32, u64)> = (0..n)
+            .into_par_iter()
+            .filter_map(|j| {
+                let i = base + j;
+                let (_, m, rnd) = fips204_verif::gen::xofsearch::sig_tuple(i);
+                let (_, d) = refmodel::sign(&p, &sks[(i % 4) as usize], &m, &[], refmodel::Mode::Pure, &rnd, 100_000).ok()?;
+                (d.iterations >= 30).then_some((d.iterations, i))
+            })
+            .collect();
+        best.sort_by_key(|e| (std::cmp::Reverse(e.0), e.1));
+        best.truncate(6);
+        let out: Vec<fips204_verif::gen::xofsearch::SigEvents> = best
+            .iter()
+            .map(|(it, i)| {
+                let (xi, m, rnd) = fips204_verif::gen::xofsearch::sig_tuple(*i);
+                let (sig, _) = refmodel::sign(&p, &sks[(*i % 4) as usize], &m, &[], refmodel::Mode::Pure, &rnd, 100_000).expect("reference sign");
+                let (run, tot) = fips204_verif::gen::xofsearch::sib_stats(&p, &sig[..p.ctilde_len()]);
+                fips204_verif::gen::xofsearch::SigEvents { set: p.id, index: *i, xi: hex::encode(xi), msg: hex::encode(&m), rnd: hex::encode(rnd), sib_max_run: run, sib_total_rej: tot, hint_weight: u32::from(sig[p.sig_len - 1]), iterations: *it }
+            })
+            .collect();
+        println!("{}", serde_json::to_string_pretty(&out).expect("json"));
+        eprintln!("searched {n} reference signatures for set {} in {:.0}s", p.id, t0.elapsed().as_secs_f64());
         return;
     }
     if cmd == "coldstart" {
